@@ -560,3 +560,122 @@ pub fn run_selections(data: &Value) -> Vec<Line> {
     }
     lines
 }
+
+// ---------------------------------------------------------------------------------------------
+// rooms (C18): the possible-rooms listing of io/rooms.rs on room-feasible assignments
+
+pub fn gen_rooms(r: &mut Rng, tier: &str) -> Vec<Case> {
+    let n = scale(tier, 500, 15000);
+    (0..n)
+        .map(|i| {
+            let nc = 1 + r.usize(7);
+            let dy = [1.0f32, 1.0, 1.5, 2.0, 0.5, 2.5];
+            let courses: Vec<Value> = (0..nc)
+                .map(|_| json!({"factor_bits": r.pick(&dy).to_bits(), "offset_bits": r.pick(&[0.0f32, 0.0, 1.0, 2.5]).to_bits(), "fixed": r.chance(1, 5)}))
+                .collect();
+            // people per course (incl. instructors)
+            let counts: Vec<usize> = (0..nc).map(|_| r.pick(&[0usize, 0, 1, 2, 3, 3, 4, 5, 8])).collect();
+            let kinds = i % 3 == 2;
+            Case { stream: "rooms", data: json!({"courses": courses, "counts": counts, "kinds": kinds,
+                "extra": (0..r.usize(4)).map(|_| r.pick(&[0usize, 1, 2, 3, 5, 8, 10, 20])).collect::<Vec<_>>(),
+                "slack": (0..nc).map(|_| r.pick(&[0usize, 0, 0, 1, 2, 5])).collect::<Vec<_>>(),
+                "zeroq": r.chance(1, 3), "shuffle": r.next(), "drop_small": r.chance(1, 2)}) }
+        })
+        .collect()
+}
+
+pub fn run_rooms(data: &Value) -> Vec<Line> {
+    let nc = data["courses"].as_array().unwrap().len();
+    let courses: Vec<verif::CourseDump> = data["courses"]
+        .as_array()
+        .unwrap()
+        .iter()
+        .enumerate()
+        .map(|(i, c)| verif::CourseDump {
+            index: i,
+            dbid: i,
+            name: format!("c{}", i),
+            num_max: 100,
+            num_min: 0,
+            instructors: vec![],
+            room_factor: f32::from_bits(c["factor_bits"].as_u64().unwrap() as u32),
+            room_offset: f32::from_bits(c["offset_bits"].as_u64().unwrap() as u32),
+            fixed_course: c["fixed"].as_bool().unwrap(),
+            hidden_participant_names: vec![],
+        })
+        .collect();
+    let counts: Vec<usize> = data["counts"].as_array().unwrap().iter().map(|x| x.as_u64().unwrap() as usize).collect();
+    let mut assignment: Vec<Option<usize>> = vec![];
+    for (c, n) in counts.iter().enumerate() {
+        for _ in 0..*n {
+            assignment.push(Some(c));
+        }
+    }
+    assignment.push(None);
+    let real: Vec<cdecao::Course> = courses.iter().map(verif::make_course).collect();
+    let sized = cdecao::caobab::room_effective_course_sizes(&assignment, &real);
+    let sizes: Vec<usize> = sized.iter().map(|(_, s)| *s).collect();
+    // a room-feasible room list: one room per positive size (+slack), plus extra rooms; optionally
+    // drop rooms of empty courses (fewer rooms than courses)
+    let slack: Vec<usize> = data["slack"].as_array().unwrap().iter().map(|x| x.as_u64().unwrap() as usize).collect();
+    let mut rooms: Vec<usize> = vec![];
+    for (c, s) in sizes.iter().enumerate() {
+        if *s > 0 || !data["drop_small"].as_bool().unwrap() {
+            rooms.push(*s + slack[c]);
+        }
+    }
+    for x in data["extra"].as_array().unwrap() {
+        rooms.push(x.as_u64().unwrap() as usize);
+    }
+    // shuffle (the --rooms list arrives as typed)
+    let mut rr = Rng::new(data["shuffle"].as_u64().unwrap());
+    for i in (1..rooms.len()).rev() {
+        let j = rr.usize(i + 1);
+        rooms.swap(i, j);
+    }
+    // the rank order the real (unstable) sort produces on the same data
+    let mut order_src: Vec<(usize, usize)> = sizes.iter().cloned().enumerate().collect();
+    order_src.sort_unstable_by_key(|(_c, s)| std::cmp::Reverse(*s));
+    // NOTE: the real code sorts (&Course, usize) pairs; the key and the input order are the same, and
+    // the sort is deterministic in the sequence of comparison outcomes, hence the same permutation.
+    let order: Vec<usize> = order_src.iter().map(|(c, _)| *c).collect();
+    let mut lines = vec![];
+    let feat = vec![format!("courses={}", nc), format!("rooms={}", rooms.len().min(10)), format!("ties={}", { let mut s = sizes.clone(); s.sort(); s.dedup(); sizes.len() - s.len() }.min(4))];
+    if data["kinds"].as_bool().unwrap() {
+        // rooms file: kinds with capacity = room size; duplicates merged into quantity; optionally a
+        // kind with quantity 0 sharing a capacity
+        let mut kinds: Vec<Value> = vec![];
+        for (i, r) in rooms.iter().enumerate() {
+            kinds.push(json!({"name": format!("K{}", i), "capacity": r, "quantity": 1 + (i % 2)}));
+        }
+        if data["zeroq"].as_bool().unwrap() && !rooms.is_empty() {
+            kinds.push(json!({"name": "Empty", "capacity": rooms[0], "quantity": 0}));
+            kinds.push(json!({"name": "EmptyBig", "capacity": 99, "quantity": 0}));
+        }
+        let text = serde_json::to_string(&kinds).unwrap();
+        match catch(|| cdecao::io::rooms::read(text.as_bytes())) {
+            Ok(Ok((rs, rk))) => {
+                let names = catch(|| cdecao::io::rooms::get_course_room_kind_names(&assignment, &real, &rk));
+                match names {
+                    Ok(names) => {
+                        let req = json!({"sizes": sizes, "order": order, "rooms": [], "kinds": kinds});
+                        let exp = json!({"rooms": rs, "list": names, "sound": true, "nonempty": true});
+                        lines.push(Line::corr(&["C18"], "RP", req.to_string(), exp.to_string()).feat(&feat));
+                    }
+                    Err(e) => lines.push(Line::direct(&["C18"], false, format!("get_course_room_kind_names panicked: {}", e))),
+                }
+            }
+            other => lines.push(Line::direct(&["C18", "C15"], false, format!("rooms file refused / panicked: {:?}", other.map(|x| x.map(|_| ()))))),
+        }
+    } else {
+        match catch(|| cdecao::io::rooms::get_course_room_size_list(&assignment, &real, &rooms)) {
+            Ok(list) => {
+                let req = json!({"sizes": sizes, "order": order, "rooms": rooms});
+                let exp = json!({"rooms": rooms, "list": list, "sound": true, "nonempty": true});
+                lines.push(Line::corr(&["C18"], "RP", req.to_string(), exp.to_string()).feat(&feat));
+            }
+            Err(e) => lines.push(Line::direct(&["C18"], false, format!("get_course_room_size_list panicked: {}", e))),
+        }
+    }
+    lines
+}
